@@ -23,6 +23,12 @@ class LinModel(Model):
                 r = rel(op, lab[2], lab[3])
                 if r:
                     out.extend(r)
+                elif op == '!=':
+                    # a != b together with a known order is a strict inequality
+                    if entails(out, [le(lab[2], lab[3])]):
+                        out.append(lt(lab[2], lab[3]))
+                    elif entails(out, [le(lab[3], lab[2])]):
+                        out.append(lt(lab[3], lab[2]))
         return out
 
     def feasible(self, it):
